@@ -121,9 +121,22 @@ def _pins():
     else:
         doc = ast.get_docstring(f)
         strs = [s for s in _strings(f) if s != doc]
-        if strs != ["member_schema", ".", "..", ".", "\\.", "/", "\\/", "[", "\\[",
+        # ("" = the empty step of an unnamed element, 05c4adc)
+        if strs != ["member_schema", "", ".", "..", ".", "\\.", "/", "\\/", "[", "\\[",
                     "\\.", "\\\\.", "\\]", "\\\\]"]:
             problems.append("pin _path_segment: string literals changed: %r" % (strs,))
+    # fq_name: "/" for the root, "/" + "/".join(parts), and one more "/" after an empty last step (05c4adc) —
+    # the shape `fqName` / `lastEmpty` of Flatland/Path.lean follows
+    f = _func(btree, "fq_name")
+    if f is None:
+        problems.append("pin fq_name: function not found")
+    else:
+        doc = ast.get_docstring(f, clean=False)
+        strs = [s for s in _strings(f) if s != doc and s.strip() != (doc or "").strip()]
+        if strs != ["/", "/", "/", "", "/"]:
+            problems.append("pin fq_name: string literals changed: %r" % (strs,))
+        if _ints(f) != [1, 1]:   # the two `[-1]` (the minus is a unary operator)
+            problems.append("pin fq_name: int literals changed: %r" % (_ints(f),))
     # the compiled objects the running code uses must carry the same text (no monkeypatching)
     try:
         from flatland.schema import paths
